@@ -361,6 +361,102 @@ theorem asIs_k08h_flush :
     (({} : RW).runAsIs [.flush, .header 500, .write 4]).under.clientStatus = 200 ∧
     (({} : RW).run [.flush, .header 500, .write 4]).StatusCode = 200 := by decide
 
+/-! ### the probe programs: what the model says the client receives IS what the wrapper records
+
+`Prog.resp` (used by `dispatch` for the status / size of a matched route) is not an independent assumption: it is what
+net/http's writer (`Wire`) shows after the program's writer operations, and — by `status_size_truthful` — what the
+wrapper `RW` reports to the end callback. (Review item C08-1.) -/
+
+/-- a final, valid status code: not 0 (net/http panics) and not informational -/
+def finalCode (c : Nat) : Prop := c ≠ 0 ∧ isInfo c = false
+
+/-- the status codes a program passes to WriteHeader are final and valid -/
+def progValid : Prog → Prop
+  | .explicit st _ | .twice st _ | .abort st _ | .copy st _ => finalCode st
+  | .flushed st _ => st ≠ 0
+  | _ => True
+
+theorem lemma_valid_ops (p : Prog) (hv : progValid p) : ∀ c, WOp.header c ∈ p.ops → c ≠ 0 := by
+  intro c hc
+  cases p with
+  | explicit st n => simp only [progValid, finalCode] at hv; simp [Prog.ops] at hc; subst hc; exact hv.1
+  | twice st n =>
+    simp only [progValid, finalCode] at hv; simp [Prog.ops] at hc
+    rcases hc with rfl | rfl
+    · exact hv.1
+    · decide
+  | abort st n => simp only [progValid, finalCode] at hv; simp [Prog.ops] at hc; subst hc; exact hv.1
+  | copy st n => simp only [progValid, finalCode] at hv; simp [Prog.ops] at hc; subst hc; exact hv.1
+  | flushed st n => simp only [progValid] at hv; simp [Prog.ops] at hc; subst hc; exact hv
+  | panics n => simp [Prog.ops] at hc; subst hc; decide
+  | silent => simp [Prog.ops] at hc
+  | writeOnly n => simp [Prog.ops] at hc
+  | copyOnly n => simp [Prog.ops] at hc
+
+/-- what the client receives after the program's writer operations is `Prog.resp` -/
+theorem prog_resp_is_wire (p : Prog) (hv : progValid p) :
+    (p.ops.foldl Wire.step {}).clientStatus = p.resp.1 ∧ (p.ops.foldl Wire.step {}).size = p.resp.2.1 := by
+  have h5 : isInfo 500 = false := by decide
+  cases p with
+  | explicit st n =>
+    simp only [progValid, finalCode] at hv
+    simp [Prog.ops, Prog.resp, Wire.step, Wire.clientStatus, hv.2]
+  | twice st n =>
+    simp only [progValid, finalCode] at hv
+    simp [Prog.ops, Prog.resp, Wire.step, Wire.clientStatus, hv.2, h5]
+  | abort st n =>
+    simp only [progValid, finalCode] at hv
+    simp [Prog.ops, Prog.resp, Wire.step, Wire.clientStatus, hv.2]
+  | copy st n =>
+    simp only [progValid, finalCode] at hv
+    simp [Prog.ops, Prog.resp, Wire.step, Wire.clientStatus, hv.2]
+  | flushed st n =>
+    by_cases hi : isInfo st = true <;> simp [Prog.ops, Prog.resp, Wire.step, Wire.clientStatus, hi]
+  | panics n => simp [Prog.ops, Prog.resp, Wire.step, Wire.clientStatus, h5]
+  | silent => simp [Prog.ops, Prog.resp, Wire.clientStatus]
+  | writeOnly n => simp [Prog.ops, Prog.resp, Wire.step, Wire.clientStatus]
+  | copyOnly n => simp [Prog.ops, Prog.resp, Wire.step, Wire.clientStatus]
+
+/-- **recorded = received for every probe program**: the status and size the wrapper hands to the end callback after
+    the program ran are what the client received, and both are `Prog.resp` — the status / size of the model's `Out` for
+    a matched route -/
+theorem prog_recorded_is_received (p : Prog) (hv : progValid p) :
+    (({} : RW).run p.ops).StatusCode = p.resp.1 ∧ (({} : RW).run p.ops).size = p.resp.2.1 ∧
+    (({} : RW).run p.ops).under.clientStatus = p.resp.1 ∧ (({} : RW).run p.ops).under.size = p.resp.2.1 := by
+  obtain ⟨h1, h2⟩ := status_size_truthful p.ops (lemma_valid_ops p hv)
+  have h5 : isInfo 500 = false := by decide
+  have hu : (({} : RW).run p.ops).under.clientStatus = p.resp.1 ∧ (({} : RW).run p.ops).under.size = p.resp.2.1 := by
+    cases p with
+    | explicit st n =>
+      simp only [progValid, finalCode] at hv
+      simp [Prog.ops, Prog.resp, RW.run, RW.step, Wire.step, Wire.clientStatus, hv.2]
+    | twice st n =>
+      simp only [progValid, finalCode] at hv
+      simp [Prog.ops, Prog.resp, RW.run, RW.step, Wire.step, Wire.clientStatus, hv.2]
+    | abort st n =>
+      simp only [progValid, finalCode] at hv
+      simp [Prog.ops, Prog.resp, RW.run, RW.step, Wire.step, Wire.clientStatus, hv.2]
+    | copy st n =>
+      simp only [progValid, finalCode] at hv
+      simp [Prog.ops, Prog.resp, RW.run, RW.step, Wire.step, Wire.clientStatus, hv.2]
+    | flushed st n => simp [Prog.ops, Prog.resp, RW.run, RW.step, Wire.step, Wire.clientStatus]
+    | panics n => simp [Prog.ops, Prog.resp, RW.run, RW.step, Wire.step, Wire.clientStatus, h5]
+    | silent => simp [Prog.ops, Prog.resp, RW.run, Wire.clientStatus]
+    | writeOnly n => simp [Prog.ops, Prog.resp, RW.run, RW.step, Wire.step, Wire.clientStatus]
+    | copyOnly n => simp [Prog.ops, Prog.resp, RW.run, RW.step, Wire.step, Wire.clientStatus]
+  exact ⟨h1.trans hu.1, h2.trans hu.2, hu.1, hu.2⟩
+
+/-- the status / size the model's dispatch reports for a matched route ARE what the wrapper records after the route's
+    program (so the `recd` component of `seen` is the wrapper's reading, not an independent stipulation) -/
+theorem matched_status_is_recorded (rt : Route) (c v l : Bytes) (p : Prog) (pre : List ROp) (hv : progValid p) :
+    (matched rt c v l p pre).status = (({} : RW).run p.ops).StatusCode ∧
+    (matched rt c v l p pre).size = (({} : RW).run p.ops).size := by
+  obtain ⟨h1, h2, _, _⟩ := prog_recorded_is_received p hv
+  exact ⟨h1.symm, h2.symm⟩
+
+example : progValid (Prog.twice 201 17) ∧ progValid (Prog.flushed 500 4) ∧ progValid Prog.silent := by
+  refine ⟨by simp [progValid, finalCode, isInfo], by simp [progValid], by simp [progValid]⟩
+
 /-- non-vacuity: the probe programs are valid op sequences and exercise every branch of the wrapper -/
 example : (({} : RW).run (Prog.twice 201 17).ops).StatusCode = 201 ∧ (({} : RW).run (Prog.twice 201 17).ops).size = 17 := by decide
 example : (({} : RW).run Prog.silent.ops).StatusCode = 200 := by decide
